@@ -104,6 +104,8 @@ func main() {
 		os.Exit(exit)
 	}
 	loadTime := time.Since(start)
+	var c386 *Ctx
+	var err386 error
 	for _, id := range ids {
 		pstart := time.Now().Add(-loadTime)
 		r := newReport(id)
@@ -115,12 +117,44 @@ func main() {
 		if *evdir != "" {
 			ev = filepath.Join(*evdir, id+".json")
 		}
+		// thorough: the same rules on GOARCH=386 (32-bit int, build-tagged files)
+		if *tier == "thorough" && *goarch == "" && os.Getenv("LUNARLINT_NO_SELFTEST") == "" {
+			if c386 == nil && err386 == nil {
+				c386, err386 = load(*repo, *tier, "386", false)
+			}
+			if err386 != nil {
+				r.bad("E1", "load GOARCH=386", "-", "the tree does not load/type-check for GOARCH=386: "+err386.Error())
+			} else {
+				r2 := newReport(id)
+				for _, rf := range props[id].rules {
+					runRule(c386, r2, rf)
+				}
+				n386, bad386 := 0, 0
+				for _, o := range r2.Obls {
+					n386++
+					if !o.OK {
+						bad386++
+						o.Construct = "GOARCH=386: " + o.Construct
+						r.Obls = append(r.Obls, o)
+					}
+				}
+				r.ok("E1", "GOARCH=386 re-analysis", "-", fmt.Sprintf("%d obligations re-checked on the 386 build, %d violated", n386, bad386))
+			}
+		}
+		var selftest []selfTestResult
+		if *tier == "thorough" && os.Getenv("LUNARLINT_NO_SELFTEST") == "" {
+			selftest = runSelfTest(id, c.Repo, *findings, *spec)
+			printSelfTest(id, selftest)
+		}
 		analysed := map[string]interface{}{
 			"repo":              c.Repo,
 			"module":            c.ModPath,
 			"library_packages":  c.LibPkgs,
 			"library_functions": len(c.Funcs),
 			"goarch":            archOr(c.GoArch),
+		}
+		if selftest != nil {
+			analysed["selftest_seeded_variants"] = selftest
 		}
 		if code := r.finish(c, *tier, pstart, ev, *findings, analysed); code > exit {
 			exit = code
